@@ -255,6 +255,12 @@ func main() {
 			os.RemoveAll(workDir)
 		}
 		os.Exit(code)
+	case "replay":
+		code := runReplay(e, fs.Args(), *timeout, *verif)
+		if *keep == "" {
+			os.RemoveAll(workDir)
+		}
+		os.Exit(code)
 	default:
 		fmt.Fprintln(os.Stderr, "unknown command", cmd)
 		os.Exit(2)
